@@ -1726,6 +1726,42 @@ mod cd_chk {
         let n = run.cases(300_000, 6_000_000);
         run.prop("cd-decode-fuzz", n, cd_fuzz, check_cd_fuzz);
     }
+
+    /// Engine E3 (libFuzzer) entry: raw bytes through `check_cd_fuzz` (base 6 = raw, no edits).
+    pub fn fuzz_cd_raw(raw: &[u8]) -> Case {
+        let spec = CdSpec {
+            format_version: 1,
+            vendor_id: 0xFFF1,
+            product_ids: vec![0x8000],
+            device_type: 0,
+            cert_id: String::new(),
+            security_level: 0,
+            security_info: 0,
+            version_number: 0,
+            cert_type: 0,
+            dac_vid: None,
+            dac_pid: None,
+            paa: None,
+            key_id: Vec::new(),
+            r: Vec::new(),
+            s: Vec::new(),
+        };
+        check_cd_fuzz(&CdFuzz { base: 6, spec, raw: raw.to_vec(), edits: Vec::new(), cut: 0 })
+    }
+
+    /// Seed corpus: the repository vectors (CMS 1, content 1, CMS 2, content 2) and reference
+    /// encodings of generated legal declarations (CMS envelope and bare certification elements).
+    pub fn fuzz_seeds(n: usize, runner: &mut proptest::test_runner::TestRunner) -> Vec<Vec<u8>> {
+        let mut out: Vec<Vec<u8>> = [VEC_CMS_01, VEC_CONTENT_01, VEC_CMS_02, VEC_CONTENT_02].iter().map(|v| vh::util::unhex(v)).collect();
+        let st = cd_legal();
+        for i in 0..n {
+            if let Some(spec) = fuzz_sample(&st, runner) {
+                let content = cd_tlv(&spec);
+                out.push(if i % 2 == 0 { cms(&content, &spec.key_id, &spec.r, &spec.s) } else { content });
+            }
+        }
+        out
+    }
 }
 
 // ---------------------------------------------------------------------------------------------
@@ -2692,6 +2728,33 @@ mod cert_chk {
         let n = run.cases(300_000, 6_000_000);
         run.prop("cert-convert-fuzz", n, cert_fuzz, check_cert_fuzz);
     }
+
+    /// Engine E3 (libFuzzer) entry: the probes of `check_cert_fuzz` (conversion and every accessor
+    /// return, no panic) on certificate TLV given as raw bytes instead of a mutated `CertSpec`.
+    pub fn check_cert_raw(tlv: &[u8], out_len: u16) -> Case {
+        let cert = CertRef::new(TLVElement::new(tlv));
+        let mut out = vec![0u8; out_len as usize];
+        let res = cert.as_asn1(&mut out);
+        let _ = cert.pubkey();
+        let _ = cert.get_node_id();
+        let _ = cert.get_fabric_id();
+        let _ = cert.get_ca_id();
+        let mut cats = [0u32; 3];
+        let _ = cert.get_cat_ids(&mut cats);
+        let _ = cert.basic_constraints_path_len();
+        let _ = cert.is_self_signed();
+        let _ = write!(Sink, "{cert}");
+        match res {
+            Ok(_) => Case::pass(true).label("converted"),
+            Err(_) => Case::pass(false).label("refused"),
+        }
+    }
+
+    /// Seed corpus: reference TLV encodings of generated legal certificates.
+    pub fn fuzz_seeds(n: usize, runner: &mut proptest::test_runner::TestRunner) -> Vec<Vec<u8>> {
+        let st = spec_legal();
+        (0..n).filter_map(|_| fuzz_sample(&st, runner)).map(|spec| to_tlv(&spec)).collect()
+    }
 }
 
 // ---------------------------------------------------------------------------------------------
@@ -3037,6 +3100,36 @@ mod ble {
         run.prop("ble-adv-roundtrip", n, adv_case, check_adv_roundtrip);
         let n = run.cases(300_000, 6_000_000);
         run.prop("ble-adv-fuzz", n, adv_fuzz, check_adv_fuzz);
+    }
+
+    /// Engine E3 (libFuzzer) entry: raw advertising data through `check_adv_fuzz`.
+    pub fn fuzz_adv_raw(blob: &[u8]) -> Case {
+        check_adv_fuzz(&AdvFuzz::Raw(blob.to_vec()))
+    }
+
+    /// Seed corpus: reference encodings of generated advertising blobs (a valid Matter record
+    /// between other AD structures), plus what rs-matter's own `AdvData` emits.
+    pub fn fuzz_seeds(n: usize, runner: &mut proptest::test_runner::TestRunner) -> Vec<Vec<u8>> {
+        let st = adv_case();
+        let mut out = Vec::new();
+        for _ in 0..n {
+            if let Some(c) = fuzz_sample(&st, runner) {
+                let mut blob = Vec::new();
+                for ad in &c.before {
+                    ref_ad(&mut blob, ad);
+                }
+                ref_ad(&mut blob, &Ad::Matter(c.p.clone()));
+                for ad in &c.after {
+                    ref_ad(&mut blob, ad);
+                }
+                out.push(blob);
+                if c.p.opcode == 0 {
+                    let dev = BasicInfoConfig { vid: c.p.vid, pid: c.p.pid, ..BasicInfoConfig::new() };
+                    out.push(AdvData::new(&dev, c.p.disc).iter().collect());
+                }
+            }
+        }
+        out
     }
 }
 
@@ -3931,4 +4024,254 @@ mod mdns_chk {
         let n = run.cases(300_000, 6_000_000);
         run.prop("mdns-parse-fuzz", n, mdns_fuzz, check_mdns_fuzz);
     }
+
+    /// Engine E3 (libFuzzer) entries: raw packets / header + body through `check_mdns_fuzz`.
+    pub fn fuzz_mdns_raw(pkt: &[u8]) -> Case {
+        check_mdns_fuzz(&MdnsFuzz::Raw(pkt.to_vec()))
+    }
+
+    pub fn fuzz_mdns_header(qr: bool, counts: [u8; 4], body: &[u8]) -> Case {
+        check_mdns_fuzz(&MdnsFuzz::Header { qr, counts, body: body.to_vec() })
+    }
+
+    /// Seed corpus: well-formed foreign mDNS packets (responses and queries) from the reference
+    /// DNS writer.
+    pub fn fuzz_seeds(n: usize, runner: &mut proptest::test_runner::TestRunner) -> Vec<Vec<u8>> {
+        let st = foreign_case();
+        (0..n).filter_map(|_| fuzz_sample(&st, runner)).map(|c| build_foreign(&c)).collect()
+    }
+}
+
+// ---------------------------------------------------------------------------------------------
+// Engine E3 (libFuzzer): entry used by `fuzz/fuzz_targets/codecs_b.rs` — same checks, other driver
+// ---------------------------------------------------------------------------------------------
+
+/// Number of input layouts `fuzz_entry` knows (selector = first byte modulo this).
+pub const FUZZ_SELECTORS: u8 = 15;
+
+/// Characters outside the base-38 / digit alphabets (the list of `bad_char()`).
+const FUZZ_BAD: [char; 25] = [
+    'a', 'z', '/', ':', ';', '@', '[', ' ', '$', '%', '*', '+', ',', '!', '_', '~', '\u{0}', '\u{7f}', '\u{e9}', '\u{4e2d}',
+    'A', '0', '.', '-', 'Z',
+];
+
+fn fuzz_verdict(c: Case) -> Result<(), String> {
+    match c.verdict {
+        vh::Verdict::Fail { signature, detail } => Err(format!("{signature}: {detail}")),
+        vh::Verdict::Pass | vh::Verdict::Inconclusive(_) => Ok(()),
+    }
+}
+
+fn fuzz_lossy(b: &[u8], max: usize) -> String {
+    String::from_utf8_lossy(&b[..b.len().min(max)]).into_owned()
+}
+
+/// Bytes onto the base-38 alphabet (228 of 256 values) and the bad characters (the rest).
+fn fuzz_b38ish(b: &[u8], max: usize) -> String {
+    b.iter()
+        .take(max)
+        .map(|x| if *x < 228 { B38[(*x % 38) as usize] as char } else { FUZZ_BAD[(*x - 228) as usize % FUZZ_BAD.len()] })
+        .collect()
+}
+
+/// Bytes onto digits and the two separators (240 of 256 values) and the bad characters.
+fn fuzz_digitish(b: &[u8], max: usize) -> String {
+    const D: &[u8; 12] = b"0123456789- ";
+    b.iter()
+        .take(max)
+        .map(|x| if *x < 240 { D[(*x % 12) as usize] as char } else { FUZZ_BAD[(*x - 240) as usize % FUZZ_BAD.len()] })
+        .collect()
+}
+
+fn fuzz_edit(h: &[u8]) -> Edit {
+    let pos = u16::from_le_bytes([h[1], h[2]]);
+    let ch = FUZZ_BAD[h[3] as usize % FUZZ_BAD.len()];
+    match h[0] % 4 {
+        0 => Edit::None,
+        1 => Edit::Replace(pos, ch),
+        2 => Edit::Insert(pos, ch),
+        _ => Edit::Truncate(1 + h[3] % 5),
+    }
+}
+
+/// Coverage-guided entry: `data[0] % FUZZ_SELECTORS` selects the decoder and how the rest of the
+/// input becomes its text/bytes, always through the raw variants of the fuzz cases and the
+/// unchanged check functions. Sizes are capped to what the checks were written for (e.g. the
+/// base-38 check decodes into a 256-byte vector).
+///
+/// | sel | input after the selector byte                                  | check               |
+/// |-----|----------------------------------------------------------------|---------------------|
+/// | 0   | QR text, lossy UTF-8 (<= 512 bytes)                            | `check_qr_fuzz`     |
+/// | 1   | "MT:" + bytes mapped onto base-38 alphabet / bad characters    | `check_qr_fuzz`     |
+/// | 2   | edit(4) + payload bytes, reference base-38 encoded, edited     | `check_qr_fuzz`     |
+/// | 3   | manual code text, lossy UTF-8 (<= 64 bytes)                    | `check_manual_fuzz` |
+/// | 4   | bytes mapped onto digits / separators / bad characters         | `check_manual_fuzz` |
+/// | 5   | as 4, check digit corrected when 11 or 21 digits               | `check_manual_fuzz` |
+/// | 6   | base-38 text, lossy UTF-8 (<= 400 bytes)                       | `check_b38_decode`  |
+/// | 7   | bytes mapped onto base-38 alphabet / bad characters            | `check_b38_decode`  |
+/// | 8   | edit(4) + bytes (<= 150), reference encoded, edited            | `check_b38_decode`  |
+/// | 9   | BLE advertising data (<= 255 bytes)                            | `check_adv_fuzz`    |
+/// | 10  | mDNS packet (<= 1500 bytes)                                    | `check_mdns_fuzz`   |
+/// | 11  | qr-bit(1) counts(4) body: DNS header with these counts + body  | `check_mdns_fuzz`   |
+/// | 12  | out-len(2) + certificate TLV                                   | `check_cert_raw`    |
+/// | 13  | certification declaration: CMS or certification-elements TLV   | `check_cd_fuzz`     |
+/// | 14  | the same bytes into 9, 10, 12 and 13                           | all four            |
+///
+/// Inputs too short for their layout are skipped (`Ok`). `Err` is `"<signature>: <detail>"`;
+/// a panic of rs-matter propagates.
+pub fn fuzz_entry(data: &[u8]) -> Result<(), String> {
+    let Some((&sel, rest)) = data.split_first() else {
+        return Ok(());
+    };
+    let case = match sel % FUZZ_SELECTORS {
+        0 => check_qr_fuzz(&QrFuzz::Raw(fuzz_lossy(rest, 512))),
+        1 => check_qr_fuzz(&QrFuzz::Body(fuzz_b38ish(rest, 512))),
+        2 => {
+            if rest.len() < 4 {
+                return Ok(());
+            }
+            let bytes = &rest[4..];
+            check_qr_fuzz(&QrFuzz::Bytes { bytes: bytes[..bytes.len().min(300)].to_vec(), edit: fuzz_edit(&rest[..4]) })
+        }
+        3 => check_manual_fuzz(&ManualFuzz::Raw(fuzz_lossy(rest, 64))),
+        4 => check_manual_fuzz(&ManualFuzz::Digits(fuzz_digitish(rest, 64))),
+        5 => {
+            let mut chars: Vec<char> = fuzz_digitish(rest, 64).chars().collect();
+            let digits: Vec<usize> = chars.iter().enumerate().filter(|(_, c)| c.is_ascii_digit()).map(|(i, _)| i).collect();
+            if chars.iter().all(|c| c.is_ascii_digit() || *c == '-' || *c == ' ') && (digits.len() == 11 || digits.len() == 21) {
+                let vals: Vec<u8> = digits[..digits.len() - 1].iter().map(|i| chars[*i] as u8 - b'0').collect();
+                chars[digits[digits.len() - 1]] = (b'0' + verhoeff_digit(&vals)) as char;
+            }
+            check_manual_fuzz(&ManualFuzz::Digits(chars.into_iter().collect()))
+        }
+        6 => check_b38_decode(&B38Fuzz::Text(fuzz_lossy(rest, 400))),
+        7 => check_b38_decode(&B38Fuzz::Text(fuzz_b38ish(rest, 400))),
+        8 => {
+            if rest.len() < 4 {
+                return Ok(());
+            }
+            let bytes = &rest[4..];
+            check_b38_decode(&B38Fuzz::Edited { bytes: bytes[..bytes.len().min(150)].to_vec(), edit: fuzz_edit(&rest[..4]) })
+        }
+        9 => ble::fuzz_adv_raw(&rest[..rest.len().min(255)]),
+        10 => mdns_chk::fuzz_mdns_raw(&rest[..rest.len().min(1500)]),
+        11 => {
+            if rest.len() < 5 {
+                return Ok(());
+            }
+            let body = &rest[5..];
+            mdns_chk::fuzz_mdns_header(rest[0] & 1 == 1, [rest[1], rest[2], rest[3], rest[4]], &body[..body.len().min(1400)])
+        }
+        12 => {
+            if rest.len() < 2 {
+                return Ok(());
+            }
+            let n = u16::from_le_bytes([rest[0], rest[1]]);
+            let out_len = if n & 1 == 1 { 2048 } else { (n >> 1) % 700 };
+            cert_chk::check_cert_raw(&rest[2..], out_len)
+        }
+        13 => cd_chk::fuzz_cd_raw(rest),
+        _ => {
+            fuzz_verdict(ble::fuzz_adv_raw(&rest[..rest.len().min(255)]))?;
+            fuzz_verdict(mdns_chk::fuzz_mdns_raw(&rest[..rest.len().min(1500)]))?;
+            fuzz_verdict(cert_chk::check_cert_raw(rest, 2048))?;
+            cd_chk::fuzz_cd_raw(rest)
+        }
+    };
+    fuzz_verdict(case)
+}
+
+fn fuzz_sample<S: Strategy>(st: &S, runner: &mut proptest::test_runner::TestRunner) -> Option<S::Value> {
+    use proptest::strategy::ValueTree;
+    st.new_tree(runner).ok().map(|t| t.current())
+}
+
+/// Seed inputs for the `codecs_b` fuzz target (used by `src/bin/mkcorpus.rs`): reference
+/// encodings of legal cases from the strategies above plus the vectors of the self-test, in the
+/// input layouts of `fuzz_entry`. Returns `(format label, input)`.
+pub fn fuzz_seeds(n: usize, seed: u64) -> Vec<(String, Vec<u8>)> {
+    use proptest::test_runner::{Config, RngAlgorithm, TestRng, TestRunner};
+    let mut s = [0u8; 32];
+    s[..8].copy_from_slice(&seed.to_le_bytes());
+    let mut runner = TestRunner::new_with_rng(Config::default(), TestRng::from_seed(RngAlgorithm::ChaCha, &s));
+    fn with_sel(sel: u8, parts: &[&[u8]]) -> Vec<u8> {
+        let mut v = vec![sel];
+        for p in parts {
+            v.extend_from_slice(p);
+        }
+        v
+    }
+    // inverse of `fuzz_b38ish` / `fuzz_digitish` for texts inside the alphabets
+    fn un_b38(text: &str) -> Vec<u8> {
+        text.bytes().filter_map(|c| b38_idx(c).map(|i| i as u8)).collect()
+    }
+    fn un_digits(text: &str) -> Vec<u8> {
+        text.bytes().filter_map(|c| b"0123456789- ".iter().position(|x| *x == c).map(|i| i as u8)).collect()
+    }
+    let mut out: Vec<(String, Vec<u8>)> = Vec::new();
+
+    // QR: reference packing of generated fields (+ optional TLV tail)
+    let (qr, man, b38) = (qr_case(), manual_case(), b38_case());
+    for text in ["MT:YNJV7VSC00CMVH7SR00", "MT:-MOA57ZU02IT2L2BJ00"] {
+        out.push(("qr-vector".into(), with_sel(0, &[text.as_bytes()])));
+        out.push(("qr-vector-body".into(), with_sel(1, &[&un_b38(&text[3..])])));
+    }
+    for code in ["34970112332", "00876800071", "26318621095", "3497-0112-332"] {
+        out.push(("manual-vector".into(), with_sel(3, &[code.as_bytes()])));
+        out.push(("manual-vector-digits".into(), with_sel(4, &[&un_digits(code)])));
+        out.push(("manual-vector-fixed".into(), with_sel(5, &[&un_digits(code)])));
+    }
+    for _ in 0..n {
+        if let Some(c) = fuzz_sample(&qr, &mut runner) {
+            let fixed = QrFixed { version: 0, vid: c.vid, pid: c.pid, flow: c.flow, caps: c.caps, disc: c.disc, passcode: c.passcode, padding: 0 };
+            let mut all = ref_qr_pack(&fixed);
+            if !c.serial.is_empty() || !c.opt.is_empty() {
+                all.push(0x15);
+                if !c.serial.is_empty() {
+                    ref_tlv_elem(&mut all, 0x00, &OptVal::Str(c.serial.clone()));
+                }
+                for e in &c.opt {
+                    ref_tlv_elem(&mut all, e.tag, &e.val);
+                }
+                all.push(0x18);
+            }
+            let body = ref_b38_encode(&all);
+            out.push(("qr-text".into(), with_sel(0, &[b"MT:", body.as_bytes()])));
+            out.push(("qr-body".into(), with_sel(1, &[&un_b38(&body)])));
+            out.push(("qr-bytes".into(), with_sel(2, &[&[0, 0, 0, 0], &all])));
+        }
+        if let Some(c) = fuzz_sample(&man, &mut runner) {
+            let code = digits_str(&ref_manual_digits(&ref_manual_groups(c.disc, c.passcode, c.long, c.vid, c.pid)));
+            out.push(("manual-text".into(), with_sel(3, &[code.as_bytes()])));
+            out.push(("manual-digits".into(), with_sel(4, &[&un_digits(&code)])));
+            out.push(("manual-fixed".into(), with_sel(5, &[&un_digits(&code)])));
+        }
+        if let Some(c) = fuzz_sample(&b38, &mut runner) {
+            let bytes = &c.bytes[..c.bytes.len().min(150)];
+            let text = ref_b38_encode(bytes);
+            out.push(("b38-text".into(), with_sel(6, &[text.as_bytes()])));
+            out.push(("b38-mapped".into(), with_sel(7, &[&un_b38(&text)])));
+            out.push(("b38-bytes".into(), with_sel(8, &[&[0, 0, 0, 0], bytes])));
+        }
+    }
+    for b in ble::fuzz_seeds(n, &mut runner) {
+        out.push(("ble-adv".into(), with_sel(9, &[&b])));
+    }
+    for (i, b) in mdns_chk::fuzz_seeds(n, &mut runner).into_iter().enumerate() {
+        out.push(("mdns".into(), with_sel(10, &[&b])));
+        if b.len() >= 12 && i % 4 == 0 {
+            // header layout: qr bit, the low bytes of the four counts, then the body
+            out.push(("mdns-header".into(), with_sel(11, &[&[(b[2] >> 7) & 1, b[5], b[7], b[9], b[11]], &b[12..]])));
+        }
+    }
+    for (i, b) in cert_chk::fuzz_seeds(n, &mut runner).into_iter().enumerate() {
+        out.push(("cert".into(), with_sel(12, &[&[1, 0], &b])));
+        if i % 4 == 0 {
+            out.push(("all-cert".into(), with_sel(14, &[&b])));
+        }
+    }
+    for b in cd_chk::fuzz_seeds(n, &mut runner) {
+        out.push(("cd".into(), with_sel(13, &[&b])));
+    }
+    out
 }
